@@ -338,10 +338,13 @@ class NCCHReader(TypeReaderCryptoBase):
         self._seed_set_up = False
 
         if seed:
+            if self.flags.uses_seed:
+                # checked first: a seed that is refused must not replace the one the process-wide database holds
+                self.setup_seed(seed)
             add_seed(self.program_id, seed)
 
         # load the seed if needed
-        if self.flags.uses_seed:
+        if self.flags.uses_seed and not self._seed_set_up:
             self.setup_seed(get_seed(self.program_id))
 
         # this would fail if zero-key and a seed is used, but I have *no* idea how that would work
